@@ -164,6 +164,15 @@ def run(rep, tier):
                           {"config": c["cfg"], "form -> (ran, model)": bad, "source": c["text"]}, replay={"path": c["path"]})
         else:
             agree += 1
+    for c in [c for c in accs if c.get("sem")][:1]:
+        rep.sample({"case": "c17:resolve:" + c["cfg"], "kind": "accepting program: form -> implementation tag named by Resolve.tla",
+                    "model": c["expect"], "printed_by_emitted_go": c["sem"]["out"].decode("utf-8", "replace")[:400], "source": c["text"][-900:]})
+    for c in rejs[:1]:
+        rep.sample({"case": "c17:resolve:" + c["cfg"] + ":" + c["form"], "kind": "form refused by Resolve.tla", "model": "refused: " + c["why"],
+                    "compiler_verdict": c["compile"]["verdict"], "source": c["text"][-600:]})
+    for t in (r, ro, re_):
+        rep.coverage["states"] = rep.coverage.get("states", 0) + (t.distinct or 0)
+        rep.coverage["transitions"] = rep.coverage.get("transitions", 0) + (t.generated or 0)
     rep.coverage["resolve_configurations"] = len(by_cfg)
     rep.coverage["resolve_forms_answered_by_model"] = len(lines)
     rep.coverage["resolve_accepting_programs_agree"] = agree
@@ -173,3 +182,4 @@ def run(rep, tier):
     if agree < 200 or refused < 1500:
         if not rep.violations:
             raise ToolError(f"vacuity: Resolve binding compared {agree} accepting programs and {refused} refusals")
+    return {"accepting_compared": agree, "refusals_compared": refused}
